@@ -154,6 +154,9 @@ func (g *gen) prelude() []zn.Stmt {
 			show("层-after", v("N"), v("R")),
 			ret(bin("+", v("R"), num(1))),
 		}},
+		// an exception raised two calls below whoever handles it
+		&zn.FuncDef{Name: "真抛", Params: []string{"N"}, Body: []zn.Stmt{&zn.Throw{Class: "异常", Args: []zn.Expr{&zn.Str{V: "深"}}}}},
+		&zn.FuncDef{Name: "深抛", Params: []string{"N"}, Body: []zn.Stmt{show("深抛-in", v("N")), ret(&zn.Call{Name: "真抛", Args: []zn.Expr{v("N")}})}},
 		// a method (and a type) declared inside a method body: they belong to each call
 		&zn.FuncDef{Name: "外", Params: []string{"N"}, Body: []zn.Stmt{
 			&zn.FuncDef{Name: "内", Params: []string{"M"}, Body: []zn.Stmt{ret(bin("*", v("M"), num(2)))}},
@@ -196,6 +199,14 @@ func (g *gen) classes() []zn.Stmt {
 			{Name: "取", Body: []zn.Stmt{ret(this("数"))}},
 			{Name: "推", Params: []string{"E"}, Body: []zn.Stmt{&zn.ExprStmt{E: &zn.MCall{Root: this("表"), Chain: []zn.Call{{Name: "后增", Args: []zn.Expr{v("E")}}}}}, ret(&zn.Member{Root: this("表"), Name: "长度"})}},
 			{Name: "取表", Body: []zn.Stmt{ret(this("表"))}},
+			// 稳: handles an exception that crossed two calls; 托: another object's method calls it and uses 其 afterwards
+			{Name: "稳", Params: []string{"N"}, Body: []zn.Stmt{ret(&zn.Call{Name: "深抛", Args: []zn.Expr{v("N")}})},
+				Catches: []zn.Catch{{Class: "异常", Body: []zn.Stmt{show(name + "-稳-handler"), ret(num(-1))}}}},
+			{Name: "托", Params: []string{"别", "N"}, Body: []zn.Stmt{
+				&zn.Let{Names: []string{"果"}, E: &zn.MCall{Root: v("别"), Chain: []zn.Call{{Name: "稳", Args: []zn.Expr{v("N")}}}}},
+				show(name+"-托", this("名"), this("数"), v("果")),
+				set(this("数"), bin("+", this("数"), num(1))),
+				ret(this("数"))}},
 			{Name: "设邻", Params: []string{"别"}, Body: []zn.Stmt{set(this("邻"), v("别")), ret(v("此"))}},
 			{Name: "取邻", Body: []zn.Stmt{ret(this("邻"))}},
 			{Name: "计", Params: []string{"D"}, Body: []zn.Stmt{&zn.ExprStmt{E: &zn.MCall{Root: this("次"), Chain: []zn.Call{{Name: "自增", Args: []zn.Expr{v("D")}}}}}, ret(this("次"))}},
@@ -233,7 +244,16 @@ func (g *gen) mainOps() []zn.Stmt {
 	fresh := 0
 	nm := func(p string) string { fresh++; return fmt.Sprintf("%s%d", p, fresh) }
 	for i := 0; i < n; i++ {
-		switch g.pick(21, "op") {
+		switch g.pick(23, "op") {
+		case 21, 22: // 其 after a call into another object that handled a deep exception
+			if len(g.objs) < 2 {
+				continue
+			}
+			a := g.objs[g.pick(len(g.objs), "ta")]
+			b := g.objs[g.pick(len(g.objs), "tb")]
+			out = append(out, show("托", &zn.MCall{Root: v(a), Chain: []zn.Call{{Name: "托", Args: []zn.Expr{v(b), g.numArg(1)}}}}), g.showObj(a), g.showObj(b))
+			g.labels["receiver-after-handled-deep-exception"] = true
+			g.twoReceivers = true
 		case 19: // a method with inner declarations, called again and again
 			out = append(out, show("nested", &zn.Call{Name: "外", Args: []zn.Expr{g.numArg(1)}}), show("nested-again", &zn.Call{Name: "外", Args: []zn.Expr{num(3)}}))
 			g.labels["inner-declarations-called-twice"] = true
